@@ -12,6 +12,7 @@ import (
 	"path/filepath"
 	"strings"
 	"sync"
+	"syscall"
 	"time"
 )
 
@@ -54,7 +55,20 @@ var (
 	// handles handed out and not closed yet, by the path they were opened for: when a process dies the kernel closes
 	// its descriptors; the parked goroutines of a simulated dead process never will, so Forget does it for them
 	openFiles = map[*os.File]string{}
+	// injected fault (optional): the n-th mutating call under the watched root, counted from Reset, is not performed
+	// and returns ErrInjected (an I/O error of a healthy process, as opposed to the death of the process)
+	failAt int
 )
+
+// ErrInjected is what a call hit by FailAt returns.
+var ErrInjected = &os.PathError{Op: "vfs", Path: "injected fault", Err: syscall.EIO}
+
+// FailAt makes the n-th (1-based) mutating call under the watched root fail with ErrInjected, once.
+func FailAt(n int) {
+	mu.Lock()
+	failAt = n
+	mu.Unlock()
+}
 
 func track(f *os.File, path string) *File {
 	mu.Lock()
@@ -116,6 +130,7 @@ func Reset(watchRoot string, logging bool) {
 	count, armAt, armMode = 0, 0, 0
 	steps, pauseIn, pauseInFn = 0, 0, nil
 	matchKind, matchSuffix = "", ""
+	failAt = 0
 	select {
 	case <-crashed:
 	default:
@@ -193,6 +208,7 @@ const (
 	doSkip        // process is dead: pretend success, do nothing
 	doDieAfter
 	doTorn
+	doFail // injected fault: do nothing, report an I/O error
 )
 
 // step records a call and decides what happens to it.
@@ -233,6 +249,15 @@ func step(kind, path, to string, mut bool) int {
 		op.N = count
 		if armAt != 0 && count == armAt {
 			hit = true
+		}
+		if failAt != 0 && count == failAt {
+			failAt = 0
+			op.Kind += "!fault"
+			if logOn {
+				log = append(log, op)
+			}
+			mu.Unlock()
+			return doFail
 		}
 		if matchKind != "" && kind == matchKind && strings.HasSuffix(p, matchSuffix) {
 			hit = true
@@ -280,6 +305,8 @@ type File struct{ *os.File }
 
 func (f *File) Write(p []byte) (int, error) {
 	switch step("write", f.Name(), "", true) {
+	case doFail:
+		return 0, ErrInjected
 	case doSkip:
 		return len(p), nil
 	case doDieAfter:
@@ -299,6 +326,8 @@ func (f *File) ReadFrom(r io.Reader) (int64, error) { return io.Copy(writerOnly{
 
 func MkdirAll(p string, m os.FileMode) error {
 	switch step("mkdirall", p, "", true) {
+	case doFail:
+		return ErrInjected
 	case doSkip:
 		return nil
 	case doDieAfter:
@@ -310,6 +339,8 @@ func MkdirAll(p string, m os.FileMode) error {
 
 func CreateTemp(d, pat string) (*File, error) {
 	switch step("createtemp", filepath.Join(d, pat), "", true) {
+	case doFail:
+		return nil, ErrInjected
 	case doSkip:
 		// a dead process creates nothing; hand out a handle on /dev/null so that callers keep going harmlessly
 		f, err := os.OpenFile(os.DevNull, os.O_RDWR, 0)
@@ -332,6 +363,8 @@ func CreateTemp(d, pat string) (*File, error) {
 
 func WriteFile(n string, b []byte, m os.FileMode) error {
 	switch step("writefile", n, "", true) {
+	case doFail:
+		return ErrInjected
 	case doSkip:
 		return nil
 	case doDieAfter:
@@ -346,6 +379,8 @@ func WriteFile(n string, b []byte, m os.FileMode) error {
 
 func Rename(a, b string) error {
 	switch step("rename", a, filepath.Clean(b), true) {
+	case doFail:
+		return ErrInjected
 	case doSkip:
 		return nil
 	case doDieAfter:
@@ -357,6 +392,8 @@ func Rename(a, b string) error {
 
 func Remove(n string) error {
 	switch step("remove", n, "", true) {
+	case doFail:
+		return ErrInjected
 	case doSkip:
 		return nil
 	case doDieAfter:
@@ -368,6 +405,8 @@ func Remove(n string) error {
 
 func RemoveAll(n string) error {
 	switch step("removeall", n, "", true) {
+	case doFail:
+		return ErrInjected
 	case doSkip:
 		return nil
 	case doDieAfter:
@@ -379,6 +418,8 @@ func RemoveAll(n string) error {
 
 func Mkdir(p string, m os.FileMode) error {
 	switch step("mkdir", p, "", true) {
+	case doFail:
+		return ErrInjected
 	case doSkip:
 		return nil
 	case doDieAfter:
@@ -390,6 +431,8 @@ func Mkdir(p string, m os.FileMode) error {
 
 func Chtimes(n string, a, m2 time.Time) error {
 	switch step("chtimes", n, "", true) {
+	case doFail:
+		return ErrInjected
 	case doSkip:
 		return nil
 	}
@@ -398,6 +441,8 @@ func Chtimes(n string, a, m2 time.Time) error {
 
 func Create(n string) (*File, error) {
 	switch step("create", n, "", true) {
+	case doFail:
+		return nil, ErrInjected
 	case doSkip:
 		f, err := os.OpenFile(os.DevNull, os.O_RDWR, 0)
 		if err != nil {
@@ -415,6 +460,8 @@ func Create(n string) (*File, error) {
 func OpenFile(n string, flag int, perm os.FileMode) (*File, error) {
 	mut := flag&(os.O_WRONLY|os.O_RDWR|os.O_CREATE|os.O_TRUNC|os.O_APPEND) != 0
 	switch step("openfile", n, "", mut) {
+	case doFail:
+		return nil, ErrInjected
 	case doSkip:
 		f, err := os.OpenFile(os.DevNull, os.O_RDWR, 0)
 		if err != nil {
